@@ -56,6 +56,39 @@ impl ResponseOutputFormat {
         }
     }
 
+    /// rows appended to a CSV file that already exists must follow the header that file starts
+    /// with. the column order of an unsorted mapping is not stable between two loads of the same
+    /// configuration, so when the existing header names exactly the configured columns, this
+    /// returns the format with its columns arranged in the header's order.
+    pub fn with_header_order(&self, header: &str) -> ResponseOutputFormat {
+        match self {
+            ResponseOutputFormat::Csv {
+                mapping,
+                sorted: false,
+            } => {
+                let names = header.trim_end().split(',').collect_vec();
+                let same_columns = names.len() == mapping.len()
+                    && names.iter().all_unique()
+                    && names.iter().all(|n| mapping.contains_key(*n));
+                if !same_columns {
+                    return self.clone();
+                }
+                // the header lists the keys in reverse order (see initial_file_contents)
+                let mut ordered = OrderedHashMap::new();
+                for name in names.iter().rev() {
+                    if let Some(m) = mapping.get(*name) {
+                        ordered.insert(name.to_string(), m.clone());
+                    }
+                }
+                ResponseOutputFormat::Csv {
+                    mapping: ordered,
+                    sorted: false,
+                }
+            }
+            _ => self.clone(),
+        }
+    }
+
     pub fn final_file_contents(&self) -> Option<String> {
         match self {
             ResponseOutputFormat::Json { newline_delimited } => {
